@@ -1,4 +1,4 @@
-import Ledger.Proofs.Reads
+import Ledger.Proofs.ReadsTxMeta
 import Ledger.Props.C05store
 import Ledger.Props.C02
 
@@ -80,6 +80,30 @@ theorem pit_transactions_reverted_mask (feat : Features) (l : Ledger) (t : Int) 
   unfold txAt maskReverted
   by_cases hle : x.timestamp ≤ t
   · cases hr : x.revertedAt <;> simp [hle]
+  · simp [hle]
+
+/-- **The transactions listing at `t`, in full**: exactly the committed transactions with
+    timestamp ≤ t, in commit order, each with its postings / dates / reference, the reverted mark
+    iff the revert happened at or before `t` (`Spec.txAt`), and the metadata `Spec.metaAt` gives at
+    `t` (history SYNC) resp. now (history DISABLED). -/
+theorem pit_transactions_eq_spec (feat : Features) (l : Ledger) (t : Int)
+    (hok : feat.txMetaHist = true → ∀ x ∈ l.txs, TxJournalOK x.id false l.events) :
+    (transactionsAt feat l (some t)).map
+        (fun v => (v.id, v.postings, v.timestamp, v.insertedAt, v.reference, v.revertedAt, v.metadata)) =
+      (l.txs.filterMap (txAt t)).map
+        (fun x => (x.id, x.postings, x.timestamp, x.insertedAt, x.reference, x.revertedAt,
+                   metaAt l (.tx x.id) (if feat.txMetaHist then some t else none))) := by
+  unfold transactionsAt
+  rw [List.map_filterMap, List.map_filterMap]
+  apply filterMap_congr_mem
+  intro x hx
+  have hmeta : txMetaRead feat l x.id (some t) = metaAt l (.tx x.id) (if feat.txMetaHist then some t else none) := by
+    cases hh : feat.txMetaHist with
+    | true => simpa using txMetaRead_eq_metaAt feat l x.id t hh (hok hh x hx)
+    | false => simp [txMetaRead, hh]
+  unfold txAt maskReverted
+  by_cases hle : x.timestamp ≤ t
+  · cases hr : x.revertedAt <;> simp [hle, hmeta]
   · simp [hle]
 
 /-- Every listed transaction satisfies the property's two inequalities. -/
